@@ -10,9 +10,9 @@
 #include "myth_verif.h"
 
 enum { Q_NWORKERS, Q_QSIZE, Q_PFIRST, Q_YIELD_PM, Q_SEED, B_N, B_VARIOUS, B_ARG_STRIDE, B_RES_STRIDE, B_ID_STRIDE,
-       B_FUNC_STRIDE, B_ATTR_STRIDE, B_WITH_RES, B_WITH_IDS, B_WITH_ATTRS, B_NESTED, B_NP };
+       B_FUNC_STRIDE, B_ATTR_STRIDE, B_WITH_RES, B_WITH_IDS, B_WITH_ATTRS, B_NESTED, B_OVERLAP, B_NP };
 static const char *const names[] = { "nworkers", "queue_size", "parent_first", "yield_pm", "seed", "n", "various", "arg_stride",
-  "res_stride", "id_stride", "func_stride", "attr_stride", "with_results", "with_ids", "with_attrs", "nested" };
+  "res_stride", "id_stride", "func_stride", "attr_stride", "with_results", "with_ids", "with_attrs", "nested", "overlap" };
 static const long *P;
 #define GUARD 0x5c
 #define MAXN 1024
@@ -25,7 +25,7 @@ static long total_calls;
 static void gen(mvsim_rng *r, long *p, int tier) {
   static const long ns[] = { 0, 1, 2, 3, 5, 8, 13, 100, 1000 };
   p[B_N] = mvh_pick(r, ns, tier ? 9 : 8);
-  wl_gen_common(r, &p[Q_NWORKERS], &p[Q_QSIZE], &p[Q_PFIRST], p[B_N] + 8);
+  wl_gen_common(r, &p[Q_NWORKERS], &p[Q_QSIZE], &p[Q_PFIRST], p[B_N] + 8 + 3 * 64 + 8);
   p[Q_YIELD_PM] = mvh_chance(r, 500) ? 300 : 0; p[Q_SEED] = (long)(mvsim_rng_next(r) >> 20);
   p[B_VARIOUS] = mvh_chance(r, 500);
   static const long as[] = { 16, 16, 24, 40, 64, 0 };
@@ -38,6 +38,7 @@ static void gen(mvsim_rng *r, long *p, int tier) {
   p[B_ATTR_STRIDE] = mvh_pick(r, ats, 4);
   p[B_WITH_RES] = mvh_chance(r, 700); p[B_WITH_IDS] = mvh_chance(r, 500); p[B_WITH_ATTRS] = mvh_chance(r, 400);
   p[B_NESTED] = mvh_chance(r, 150);
+  p[B_OVERLAP] = mvh_chance(r, 400) ? mvh_range(r, 1, 3) : 0;   /* other bulk calls, with other functions, overlapping this one */
 }
 typedef struct { long tag; long pad; } item_t;
 static long item_index(void *arg) {
@@ -118,14 +119,49 @@ static void one_call(long n) {
   mvh_counter[mvh_counter_id("bulk_calls")]++;
   mvh_counter[mvh_counter_id("bulk_items")] += (uint64_t)n;
 }
+/* ---- side calls: independent bulk calls with their own function and arrays that overlap the main call in time
+   (two callers on different workers, or a call issued from inside an item of another call).  Each must still be
+   its own sequential loop. ---- */
+#define SIDE_MAX 64
+static long side_args[3][SIDE_MAX]; static void *side_res[3][SIDE_MAX]; static int side_calls[3][SIDE_MAX]; static long side_n[3];
+static void side_call(int which, long m);
+static void *side_common(int which, void *arg) {
+  long i = (long *)arg - side_args[which];
+  MVH_CHECK(i >= 0 && i < side_n[which] && side_args[which][i] == 7000 + which * 100 + i, "C17-ARG",
+            "side call %d: function applied to %p, which is not one of its items (another call's function ran on this call's item, or vice versa)", which, arg);
+  side_calls[which][i]++;
+  if (wl_mix(P[Q_SEED], 900 + which * 64 + i) & 1) myth_yield(); else mvsim_user_point();
+  if (which == 0 && i == 0 && P[B_OVERLAP] >= 2) side_call(2, 1 + (long)(wl_mix(P[Q_SEED], 950) % 9));   /* nested call with another function */
+  return (void *)(uintptr_t)(0x900000 + which * 0x10000 + i);
+}
+static void *side_f0(void *a) { return side_common(0, a); }
+static void *side_f1(void *a) { return side_common(1, a); }
+static void *side_f2(void *a) { return side_common(2, a); }
+static myth_func_t const SIDE_FN[3] = { side_f0, side_f1, side_f2 };
+static void side_call(int which, long m) {
+  if (m > SIDE_MAX) m = SIDE_MAX;
+  side_n[which] = m;
+  for (long i = 0; i < m; i++) { side_args[which][i] = 7000 + which * 100 + i; side_res[which][i] = (void *)0x5c5c; side_calls[which][i] = 0; }
+  int rc = myth_create_join_many_ex(0, 0, SIDE_FN[which], side_args[which], side_res[which], 0, 0, sizeof(long), sizeof(void *), (size_t)m);
+  MVH_CHECK(rc == 0, "C17-RC", "bulk helper (side call %d) returned %d", which, rc);
+  for (long i = 0; i < m; i++) {
+    MVH_CHECK(side_calls[which][i] == 1, "C17-COUNT", "side call %d, item %ld: its function was applied %d times", which, i, side_calls[which][i]);
+    MVH_CHECK(side_res[which][i] == (void *)(uintptr_t)(0x900000 + which * 0x10000 + i), "C17-RESULT", "side call %d, result slot %ld holds %p (not the value of this call's function)", which, i, side_res[which][i]);
+  }
+  mvh_counter[mvh_counter_id("bulk_side_calls")]++;
+}
+static void *side_thread(void *a) { long w = (long)a; side_call((int)w, 2 + (long)(wl_mix(P[Q_SEED], 960 + w) % 30)); return a; }
 static void *nested_caller(void *a) { one_call((long)a); return a; }
 static void run(const long *p, mvsim_runcfg *cfg, mvsim_runstats *st) {
   P = p;
   long n = p[B_N]; if (n > MAXN - 1) n = MAXN - 1;
   cfg->budget1 += 3000 * (uint64_t)n; cfg->budget2 += 30000 * (uint64_t)n;
   wl_begin(cfg, p[Q_NWORKERS], 32, p[Q_QSIZE], (int)p[Q_PFIRST]);
+  myth_thread_t side[2]; int nside = p[B_OVERLAP] ? 2 : 0;
+  for (long w = 0; w < nside; w++) { side[w] = myth_create(side_thread, (void *)w); wl_maybe_yield(wl_mix(p[Q_SEED], 970 + w), 500); }
   if (p[B_NESTED]) { myth_thread_t t = myth_create(nested_caller, (void *)n); void *r; myth_join(t, &r); }
   else one_call(n);
+  for (int w = 0; w < nside; w++) { void *r; myth_join(side[w], &r); }
   one_call(0);          /* n = 0 does nothing */
   if (mvsim_probe_count(MYTH_VP_STEAL_HIT) || mvsim_probe_count(MYTH_VP_JOIN_NEXT) + mvsim_probe_count(MYTH_VP_JOIN_SCHED)) mvh_run_flags |= 1;
   wl_end(st, 1);
